@@ -86,9 +86,12 @@ def fold_rule(prog, rep):
 
     rb = local_defs(fi, pt)
     rep.check(not rb, "FOLD", fi.short, "pulsetime passed through", f"`{pt}` is not re-bound", f"`{pt}` is re-bound (`{norm(rb[0]) if rb else ''}`) before it reaches heartbeat_merge: the fold no longer applies the merge rule at the caller's pulsetime", fi.loc(rb[0]) if rb else fi.loc())
-    rets = [n for n in walk_own(fi.node) if isinstance(n, ast.Return)]
+    from ..rules_flow import early_returns
+
+    early_returns(prog, rep, "FOLD", fi, [ev], bound=2, what="the fold")
+    rets = [n for n in walk_own(fi.node) if isinstance(n, ast.Return) and n is fi.node.body[-1]]
     if len(rets) != 1 or not isinstance(rets[0].value, ast.Name):
-        rep.undecided("FOLD", fi.short, "return", "not a single `return <acc>`", fi.loc())
+        rep.undecided("FOLD", fi.short, "return", "the function does not end in `return <acc>`", fi.loc())
         return
     acc = rets[0].value.id
     loops = [n for n in fi.node.body if isinstance(n, ast.For)]
@@ -160,6 +163,8 @@ def check(prog, rep):
 
 H = "aw_transform/heartbeats.py"
 VARIANTS = [
+    ("B fold skipped for pulsetime 0 (touching equal events still merge at pulsetime 0)", H, "    reduced = []\n", "    if len(events) < 2 or pulsetime <= 0:\n        return events\n    reduced = []\n", "FOLD"),
+    ("OK fold skipped for fewer than two events", H, "    reduced = []\n", "    if len(events) < 2:\n        return events\n    reduced = []\n", "ok"),
     ("B lower bound strict", H, "last_event.timestamp <= heartbeat.timestamp <= pulseperiod_end", "last_event.timestamp < heartbeat.timestamp <= pulseperiod_end", "MERGE"),
     ("B upper bound strict", H, "last_event.timestamp <= heartbeat.timestamp <= pulseperiod_end", "last_event.timestamp <= heartbeat.timestamp < pulseperiod_end", "MERGE"),
     ("B max dropped", H, "last_event.duration = max((last_event.duration, new_duration))", "last_event.duration = new_duration", "MERGE"),
